@@ -219,6 +219,37 @@ theorem C06_zero_approval {pol : Policy} {i o : Nat} (hp : pol.feePct < 100)
               · omega
             · simp [h6] at hb
 
+/-- **Small parts cannot escape the accounting.**  A commitment request that LISTS an HTLC below the trim threshold of
+    its direction (`policy-commitment-outputs-trimmed` of `validate_commitment_tx`, which runs before
+    `validate_payments`) is refused and changes nothing, on both kinds of commitment. -/
+theorem C06_trimmed_refused (n : Node) (c : Nat) (r : Bool) (i : Info) :
+    (untrimmed n.dust i.inc i.out = false → n.exec (.cpSign c r i) = some (n, false)) ∧
+    (untrimmed n.dust i.out i.inc = false → n.exec (.hValidate c r i) = some (n, false)) := by
+  constructor <;> intro h <;> simp [Node.exec, h]
+
+/-- Hence every HTLC listed by an ACCEPTED counterparty-commitment request is at or above the threshold of its
+    direction, and all of them are counted (`sumFor` runs over the whole lists: `C06_step` / `C06_partial`). -/
+theorem C06_accepted_untrimmed {n n' : Node} {c : Nat} {r : Bool} {i : Info}
+    (h : n.exec (.cpSign c r i) = some (n', true)) :
+    (∀ x ∈ i.inc, n.dust.off ≤ x.value) ∧ (∀ x ∈ i.out, n.dust.rcv ≤ x.value) := by
+  cases hd : untrimmed n.dust i.inc i.out with
+  | false => simp [Node.exec, hd] at h
+  | true =>
+    simp only [untrimmed, Bool.and_eq_true, List.all_eq_true, Bool.not_eq_true', decide_eq_false_iff_not,
+      Nat.not_lt] at hd
+    exact hd
+
+/-- non-vacuity: at the harness feerate (253 sat/kw, weights 663 / 703) the thresholds are 497 / 507 sat; an incoming
+    part of 496 sat and an outgoing part of 506 sat are refused, 497 sat incoming is accepted -/
+example :
+    let n0 := Node.init 2 pol0 ⟨0, .unlimited⟩ ⟨dustLimit 330 253 663, dustLimit 330 253 703⟩
+    n0.dust = ⟨497, 507⟩ ∧
+    (n0.exec (.cpSign 0 false (Info.ofCp [⟨2, 496, 600⟩] []))).map (·.2) = some false ∧
+    (n0.exec (.cpSign 0 false (Info.ofCp [] [⟨2, 506, 500⟩]))).map (·.2) = some false ∧
+    (n0.exec (.cpSign 0 false (Info.ofCp [⟨2, 497, 600⟩] []))).map (·.2) = some true ∧
+    (n0.exec (.hValidate 0 false (Info.ofHolder [⟨2, 496, 500⟩] []))).map (·.2) = some false := by
+  decide +kernel
+
 /-- **C06 (restart).**  A restart (persisted invoices and preimages, payments rebuilt by
     `restore_payments` from the current commitments of every channel) keeps the invariant, leaves the
     ghost ledger and the approvals unchanged, and leaves the node's per-channel amounts exactly equal to
